@@ -42,7 +42,11 @@ def produce(tier, seed, which):
     scs = scenarios.point_scenarios(tier) if which == "point" else scenarios.scan_scenarios(tier)
     exes = vlib.build_many([dict(name="olc_driver", harness_srcs=["olc_driver.cpp"], config="dbg"),
                             dict(name="olc_driver", harness_srcs=["olc_driver.cpp"], config="asan")])
-    files = scenarios.write_chunks(scs, d, vlib.NCPU if tier == "quick" else 2 * vlib.NCPU)
+    # many small chunks, heavy scenarios first: the wall time is that of the slowest worker
+    def weight(sc):
+        return -(len(sc.init) + 10 * sum(len(p) for p in sc.progs) + 40 * (len(sc.progs) - 2))
+    scs = sorted(scs, key=weight)
+    files = scenarios.write_chunks(scs, d, 3 * vlib.NCPU)
     pb = 2 if tier == "quick" else 3
     jobs = []
     for i, f in enumerate(files):
@@ -52,8 +56,8 @@ def produce(tier, seed, which):
     fscs = [s for s in scs if scenarios.fine_grained(s)] if tier == "quick" else scs
     fd = os.path.join(d, "fine")
     os.makedirs(fd, exist_ok=True)
-    for i, f in enumerate(scenarios.write_chunks(fscs, fd, 2 * vlib.NCPU)):
-        jobs.append(("pb_fine", exes[0], f, ["--pb", "2", "--fine", "--max-exec", "4000" if tier == "quick" else "15000"], "pf_%d" % i))
+    for i, f in enumerate(scenarios.write_chunks(fscs, fd, 3 * vlib.NCPU)):
+        jobs.append(("pb_fine", exes[0], f, ["--pb", "2", "--fine", "--max-exec", "3000" if tier == "quick" else "15000"], "pf_%d" % i))
     # random schedules: dbg build at field granularity, ASan build at segment granularity
     rn = 150 if tier == "quick" else 3000
     for i, f in enumerate(files):
